@@ -533,16 +533,16 @@ pub fn run(args: &Args, report: &Report) {
         }
     });
     if args.replay.is_none() {
-        report.require("c04.failed_checked", args.by_tier(400, 4_000));
-        report.require("c04.failed_after_storage_write", args.by_tier(150, 1_500));
-        report.require("c04.failed_after_balance_or_outbox_effect", args.by_tier(50, 500));
-        report.require("c04.failed_with_retryable_message_input", args.by_tier(10, 100));
-        report.require("c04.failed_with_message_coin_input", args.by_tier(5, 50));
-        report.require("c04.skipped_checked", args.by_tier(400, 4_000));
-        report.require("c04.block_with_vs_without_skipped", args.by_tier(150, 1_500));
-        report.require("c04.skipped.TransactionIdCollision", args.by_tier(20, 200));
-        report.require("c04.skipped.TransactionValidity.CoinDoesNotExist", args.by_tier(20, 200));
-        report.require("c04.failed.Revert", args.by_tier(100, 1_000));
+        report.require("c04.failed_checked", args.by_tier(2400, 24000));
+        report.require("c04.failed_after_storage_write", args.by_tier(1700, 17000));
+        report.require("c04.failed_after_balance_or_outbox_effect", args.by_tier(1400, 14000));
+        report.require("c04.failed_with_retryable_message_input", args.by_tier(900, 9000));
+        report.require("c04.failed_with_message_coin_input", args.by_tier(380, 3800));
+        report.require("c04.skipped_checked", args.by_tier(1900, 19000));
+        report.require("c04.block_with_vs_without_skipped", args.by_tier(800, 8000));
+        report.require("c04.skipped.TransactionIdCollision", args.by_tier(250, 2500));
+        report.require("c04.skipped.TransactionValidity.CoinDoesNotExist", args.by_tier(180, 1800));
+        report.require("c04.failed.Revert", args.by_tier(1100, 11000));
     }
     report.finish(
         args,
